@@ -469,6 +469,10 @@ func corrupt(r *rng.R, b []byte) []byte {
 }
 
 func (g *gen) imageURL() string {
+	return strings.NewReplacer("\n", " ", "\t", " ", "\\", "/").Replace(g.imageURL0())
+}
+
+func (g *gen) imageURL0() string {
 	r := g.r
 	switch r.Intn(12) {
 	case 0, 1, 2:
@@ -510,7 +514,7 @@ func (g *gen) contentValue() string {
 		case 5:
 			parts = append(parts, pick(r, []string{"open-quote", "close-quote", "no-open-quote", "no-close-quote"}))
 		case 6:
-			parts = append(parts, "url("+g.imageURL()+")")
+			parts = append(parts, "url(\""+g.imageURL()+"\")")
 		case 7:
 			parts = append(parts, "string("+pick(r, []string{"s", "t"})+pick(r, []string{"", ", first", ", last", ", start", ", first-except"})+")")
 		case 8:
@@ -672,13 +676,13 @@ func (g *gen) decl0() Decl {
 	case 41:
 		return Decl{Name: "list-style-type", Value: pick(r, counterSt)}
 	case 42:
-		return Decl{Name: pick(r, []string{"list-style-position", "list-style-image", "list-style"}), Value: pick(r, []string{"inside", "outside", "none", "url(" + g.imageURL() + ")", "square inside", "linear-gradient(red,blue)"})}
+		return Decl{Name: pick(r, []string{"list-style-position", "list-style-image", "list-style"}), Value: pick(r, []string{"inside", "outside", "none", "url(\"" + g.imageURL() + "\")", "square inside", "linear-gradient(red,blue)"})}
 	case 43:
 		return Decl{Name: "transform", Value: pick(r, []string{"rotate(30deg)", "scale(0)", "translate(10px, 50%)", "matrix(1,0,0,1,0,0)", "skew(10deg)", "scale(2) rotate(1turn)", "none", "translateX(-1000px)", "scale(1e10)", "rotate(0)"})}
 	case 44:
 		return Decl{Name: pick(r, []string{"opacity", "z-index", "visibility", "transform-origin", "image-rendering", "image-resolution", "object-fit", "object-position", "image-orientation"}), Value: pick(r, []string{"0", "0.5", "1", "-1", "10", "hidden", "collapse", "visible", "auto", "50% 50%", "left top", "pixelated", "2dppx", "contain", "cover", "fill", "none", "scale-down", "from-image", "90deg", "10px 20px", "0.001dppx", "300dpi"})}
 	case 45:
-		return Decl{Name: pick(r, []string{"background", "background-color", "background-image"}), Value: pick(r, []string{pick(r, colors), "url(" + g.imageURL() + ")", "linear-gradient(to right, red, blue)", "radial-gradient(circle, red 0%, blue 100%)", "linear-gradient(red 0 0)", "repeating-linear-gradient(red, blue 0)", "radial-gradient(0px, red, blue)", "linear-gradient(45deg, red -50%, blue 200%)", "repeating-radial-gradient(ellipse farthest-corner at 10% 10%, red, blue 1px)", "radial-gradient(closest-side at 0 0, red, blue)", "none"})}
+		return Decl{Name: pick(r, []string{"background", "background-color", "background-image"}), Value: pick(r, []string{pick(r, colors), "url(\"" + g.imageURL() + "\")", "linear-gradient(to right, red, blue)", "radial-gradient(circle, red 0%, blue 100%)", "linear-gradient(red 0 0)", "repeating-linear-gradient(red, blue 0)", "radial-gradient(0px, red, blue)", "linear-gradient(45deg, red -50%, blue 200%)", "repeating-radial-gradient(ellipse farthest-corner at 10% 10%, red, blue 1px)", "radial-gradient(closest-side at 0 0, red, blue)", "none"})}
 	case 46:
 		return Decl{Name: pick(r, []string{"background-size", "background-position", "background-repeat", "background-clip", "background-origin", "background-attachment"}), Value: pick(r, []string{"cover", "contain", "0 0", "10px auto", "100% 100%", "left top", "center", "right 10px bottom 5%", "repeat-x", "space", "round", "no-repeat", "border-box", "content-box", "padding-box", "fixed", "0", "auto 0"})}
 	case 47:
@@ -733,7 +737,7 @@ func (g *gen) attrs(n *Node) {
 		n.Attrs = append(n.Attrs, Attr{K: "dir", V: pick(r, []string{"rtl", "ltr", "auto"})})
 	}
 	if r.P(1, 20) {
-		n.Attrs = append(n.Attrs, Attr{K: "lang", V: pick(r, []string{"en", "fr", "de", "ar", "en-US", "fr", "en", "zh-Hans", "x", ""})})
+		n.Attrs = append(n.Attrs, Attr{K: "lang", V: pick(r, []string{"en", "fr", "de", "ar", "en-US", "fr", "en", "zh-Hans", "", "el", "en", "fr", pick(r, []string{"x", "X", "en", "q", "123"})})})
 	}
 	if r.P(1, 30) {
 		n.Attrs = append(n.Attrs, Attr{K: "hidden", V: ""})
@@ -744,14 +748,14 @@ func (g *gen) attrs(n *Node) {
 	switch n.Tag {
 	case "td", "th":
 		if r.P(1, 3) {
-			n.Attrs = append(n.Attrs, Attr{K: "colspan", V: pick(r, []string{"2", "3", "0", "1", "-1", "1000", "abc", "", "2.5", " 2 ", "99999999999999999999"})})
+			n.Attrs = append(n.Attrs, Attr{K: "colspan", V: pick(r, []string{"2", "3", "0", "1", "-1", "2", "abc", "", "2.5", " 2 ", "3", "2", "4", "7", pick(r, []string{"1000", "99999999999999999999", "40", "2"})})})
 		}
 		if r.P(1, 4) {
-			n.Attrs = append(n.Attrs, Attr{K: "rowspan", V: pick(r, []string{"2", "3", "0", "1", "-1", "65534", "abc", "70000"})})
+			n.Attrs = append(n.Attrs, Attr{K: "rowspan", V: pick(r, []string{"2", "3", "0", "1", "-1", "2", "abc", "4", "3", "2", pick(r, []string{"65534", "70000", "30", "2"})})})
 		}
 	case "col", "colgroup":
 		if r.P(1, 2) {
-			n.Attrs = append(n.Attrs, Attr{K: "span", V: pick(r, []string{"2", "3", "0", "-1", "1000", "x"})})
+			n.Attrs = append(n.Attrs, Attr{K: "span", V: pick(r, []string{"2", "3", "0", "-1", "2", "x", "4", pick(r, []string{"1000", "2", "50"})})})
 		}
 	case "ol":
 		if r.P(1, 3) {
